@@ -191,6 +191,8 @@ impl Iterator for ClientConnection {
         loop {
             let rq = match self.read() {
                 Err(ReadError::WrongRequestLine) => {
+                    #[cfg(tiny_http_verif)]
+                    simrt::probe("client.reject.400_request_line");
                     let writer = self.sink.next().unwrap();
                     let response = Response::new_empty(StatusCode(400));
                     response
@@ -201,6 +203,8 @@ impl Iterator for ClientConnection {
                 }
 
                 Err(ReadError::WrongHeader(ver)) => {
+                    #[cfg(tiny_http_verif)]
+                    simrt::probe("client.reject.400_header");
                     let writer = self.sink.next().unwrap();
                     let response = Response::new_empty(StatusCode(400));
                     response.raw_print(writer, ver, &[], false, None).ok();
@@ -219,12 +223,21 @@ impl Iterator for ClientConnection {
                 }
 
                 Err(ReadError::ExpectationFailed(ver)) => {
+                    #[cfg(tiny_http_verif)]
+                    simrt::probe("client.reject.417");
                     let writer = self.sink.next().unwrap();
                     let response = Response::new_empty(StatusCode(417));
                     response.raw_print(writer, ver, &[], true, None).ok();
                     return None; // TODO: should be recoverable, but needs handling in case of body
                 }
 
+                #[cfg(tiny_http_verif)]
+                Err(ReadError::ReadIoError(_)) => {
+                    simrt::probe("client.read_error_or_eof.silent_close");
+                    return None;
+                }
+
+                #[cfg_attr(tiny_http_verif, allow(unreachable_patterns))]
                 Err(ReadError::ReadIoError(_)) => return None,
 
                 Ok(rq) => rq,
@@ -232,6 +245,8 @@ impl Iterator for ClientConnection {
 
             // checking HTTP version
             if *rq.http_version() > (1, 1) {
+                #[cfg(tiny_http_verif)]
+                simrt::probe("client.reject.505");
                 // answer through the rejected request's own writer: a writer taken
                 // after it could never get its turn while `rq` is alive in this frame
                 let mut writer = rq.into_writer();
